@@ -152,7 +152,24 @@ def check_writer(run, pkg, ndim):
     loc = fi.loc()
     if len(it.returns) != 1:
         raise AnalysisError(f"{fq}[{ndim}D]: expected one return")
-    lines, rest = to_lines(flatten(it.returns[0].data["value"]))
+    retv = it.returns[0].data["value"]
+    # the layout (2-D with a dummy z line / 3-D) may depend on the NUMBER of bound rows only: a test on the bound values makes
+    # some boxes of the same dimension come out in the other layout
+    for x in walk(retv):
+        if x[0] == "phi" and any(y[0] == "sub" and (y[1] == bb or (y[1][0] == "sub" and y[1][1] == bb)) for y in walk(x[1])):
+            from ..concrete import ev as cev
+            boxes = [np.array([[0.0, 30.0], [0.0, 30.0], [0.0, 50.0]][:ndim]), np.array([[0.0, 30.0], [0.0, 30.0], [0.0, 1.0]][:ndim]), np.array([[-5.0, 5.0], [2.0, 2.5], [-0.25, 0.25]][:ndim])]
+            try:
+                vals = [bool(cev(x[1], {bb: b})) for b in boxes]
+            except Exception:  # noqa
+                vals = None
+            if vals is not None and len(set(vals)) > 1:
+                k_ = vals.index(not vals[0])
+                run.ob("R-PROTO", fq, f"{ndim}D:layout-by-value", False, "boxes of one dimension are all written in the same layout (the layout depends on the number of bound rows only)",
+                       f"the header text depends on {show(x[1])[:80]}", witness=f"{ndim}D boxes {boxes[0].tolist()} and {boxes[k_].tolist()} are written in different layouts: one of them is read back "
+                       f"with wrong z bounds / a missing column", loc=loc, sound=True)
+                return None
+    lines, rest = to_lines(flatten(retv))
     ok9 = len(lines) == 9 and not rest
     run.ob("R-PROTO", fq, f"{ndim}D:nine-lines", ok9, "the header is nine newline-terminated lines (a dummy third bounds line in 2D)", f"{len(lines)} lines, trailing text {bool(rest)}",
            witness=None if ok9 else f"{ndim}D header of {len(lines)} lines: every reader skips nine lines, the atom block is misaligned", loc=loc, sound=True)
